@@ -259,7 +259,7 @@ func (e *routerEnv) observe() string {
 	e.rt.mu.Lock()
 	log := strings.Join(e.rt.log, ",")
 	e.rt.mu.Unlock()
-	return fmt.Sprintf("obs list=[%s] last=[%s] pos=%d waiters=%d alive=[%s] sent=[%s] calls=[%s]", strings.Join(list, ","), strings.Join(last, ","), pos, waiters, strings.Join(al, ","), log, strings.Join(cs, " "))
+	return fmt.Sprintf("obs nt=%d list=[%s] last=[%s] pos=%d waiters=%d alive=[%s] sent=[%s] calls=[%s]", len(alive), strings.Join(list, ","), strings.Join(last, ","), pos, waiters, strings.Join(al, ","), log, strings.Join(cs, " "))
 }
 
 type leastPick struct {
@@ -781,6 +781,10 @@ func routerCorpus() []routerScenario {
 	mk("update-storm", "rr", "storm 60")
 	mk("failover-call", "rr", "health A 1", "health B 1", "update A,B", "wait", "route 2", "health B 0", "route 4", "wait", "route 4", "health B 1", "wait", "wait", "route 4")
 	mk("failover-go", "rr", "health A 1", "health B 1", "update A,B", "wait", "gos 2", "health B 0", "gos 4", "wait", "gos 4", "wait", "gos 4")
+	mk("failover-ctx", "rr", "health A 1", "health B 1", "update A,B", "wait", "ctxs 2", "health B 0", "ctxs 4", "wait", "ctxs 4", "health B 1", "wait", "wait", "ctxs 4")
+	mk("failover-every-form", "rr", "health A 1", "health B 1", "update A,B", "wait", "health B 0", "rts 2", "wait", "health B 1", "wait", "wait", "wait", "health A 0", "pings 2", "wait", "health A 1", "wait", "wait", "wait", "health B 0", "ctxs 2", "wait", "route 2")
+	mk("shrink-with-cursor", "rr", "health A 1", "health B 1", "health C 1", "update A,B,C", "wait", "route 2", "health C 0", "wait", "wait", "route 3", "health C 1", "wait", "wait", "wait", "route 1", "health A 0", "wait", "wait", "route 4")
+	mk("shrink-with-cursor-at-the-end", "rr", "health A 1", "health B 1", "health C 1", "health D 1", "update A,B,C,D", "wait", "route 3", "health D 0", "wait", "wait", "route 2", "health B 0", "wait", "wait", "gos 3")
 	mk("waiters-released", "rr", "health A 0", "update A", "wait", "park 3 call", "park 2 go", "health A 1", "wait", "settle", "route 1")
 	mk("waiters-timeout", "rr", "health A 0", "update A", "wait", "park 2 call", "park 1 ctx", "park 1 go", "park 1 rt", "park 1 ping", "expire", "settle")
 	mk("waiters-close", "rr", "health A 0", "update A", "wait", "park 2 call", "park 1 ctx", "park 1 go", "close", "settle", "route 1", "gos 1", "close")
